@@ -8,6 +8,7 @@ import (
 	"math"
 
 	"github.com/twpayne/go-geom"
+	"github.com/twpayne/go-geom/encoding/geojson"
 )
 
 const infTok = 99
@@ -45,6 +46,64 @@ func boundsProj(f func() *geom.Bounds) map[string]any {
 	return out
 }
 
+// polyProj records Bounds.Polygon(): layout, ends and the flat coordinates (as recorded ordinates).
+func polyProj(f func() *geom.Bounds) map[string]any {
+	out := map[string]any{"pan": "", "l": "?", "ends": []int{}, "fc": []int{}}
+	ev, msg := call(func() {
+		p := f().Polygon()
+		out["l"] = layoutName(p.Layout())
+		out["ends"] = append([]int{}, p.Ends()...)
+		fc := []int{}
+		for _, v := range p.FlatCoords() {
+			fc = append(fc, ordInt(v))
+		}
+		out["fc"] = fc
+	})
+	if ev != "ok" {
+		out["pan"] = msg
+	}
+	return out
+}
+
+// bboxProj records the "bbox" member of the GeoJSON encoding of g with EncodeGeometryWithBBox (plus opts).
+func bboxProj(g geom.T, opts ...geojson.EncodeGeometryOption) map[string]any {
+	out := map[string]any{"pan": "", "err": "", "has": false, "bb": []int{}}
+	ev, msg := call(func() {
+		data, err := geojson.Marshal(g, append([]geojson.EncodeGeometryOption{geojson.EncodeGeometryWithBBox()}, opts...)...)
+		if err != nil {
+			out["err"] = "marshal: " + err.Error()
+			return
+		}
+		var obj map[string]json.RawMessage
+		if err := json.Unmarshal(data, &obj); err != nil {
+			out["err"] = "not a JSON object: " + err.Error()
+			return
+		}
+		raw, ok := obj["bbox"]
+		if !ok {
+			return
+		}
+		var fs []float64
+		if err := json.Unmarshal(raw, &fs); err != nil {
+			out["err"] = "bbox is not an array of numbers: " + err.Error()
+			return
+		}
+		bb := []int{}
+		for _, v := range fs {
+			bb = append(bb, ordInt(v))
+		}
+		out["has"], out["bb"] = true, bb
+	})
+	if ev != "ok" {
+		out["pan"] = msg
+	}
+	return out
+}
+
+func goType(g geom.T) string {
+	return fmt.Sprintf("%T", g)[len("*geom."):]
+}
+
 type bGeom struct {
 	L  string
 	Cs [][]int
@@ -67,24 +126,60 @@ func intCoords(cs [][]int) []geom.Coord {
 	return out
 }
 
-// leafGeom builds a geometry holding exactly the coords cs; the Go type rotates with salt.
+// leafGeom builds a geometry holding exactly the coords cs (in order); the Go type rotates with salt over the
+// seven coordinate-carrying types, with empty parts / rings / members mixed in.
 func leafGeom(l string, cs [][]int, salt int) geom.T {
 	layout := layoutOf(l)
 	co := intCoords(cs)
-	switch {
-	case len(cs) == 1 && salt%2 == 0:
-		return geom.NewPoint(layout).MustSetCoords(co[0])
-	case salt%3 == 0:
+	h := (len(co) + 1) / 2
+	if salt < 0 {
+		salt = -salt
+	}
+	if noRing && salt%8 == 4 {
+		salt++
+	}
+	switch salt % 8 {
+	case 0:
+		switch len(co) {
+		case 0:
+			return geom.NewPointEmpty(layout)
+		case 1:
+			return geom.NewPoint(layout).MustSetCoords(co[0])
+		}
 		return geom.NewMultiPoint(layout).MustSetCoords(co)
-	case salt%3 == 1:
+	case 1:
+		return geom.NewMultiPoint(layout).MustSetCoords(co)
+	case 2:
 		return geom.NewLineString(layout).MustSetCoords(co)
+	case 3:
+		return geom.NewMultiLineString(layout).MustSetCoords([][]geom.Coord{{}, co})
+	case 4:
+		return geom.NewLinearRing(layout).MustSetCoords(co)
+	case 5:
+		if len(co) == 0 {
+			return geom.NewPolygon(layout).MustSetCoords([][]geom.Coord{{}, {}})
+		}
+		return geom.NewPolygon(layout).MustSetCoords([][]geom.Coord{co[:h], {}, co[h:]})
+	case 6:
+		if len(co) == 0 {
+			return geom.NewMultiPolygon(layout).MustSetCoords([][][]geom.Coord{{}, {{}}})
+		}
+		return geom.NewMultiPolygon(layout).MustSetCoords([][][]geom.Coord{{}, {co[:h], {}}, {}, {{}, co[h:]}})
 	default:
 		if len(co) == 0 {
 			return geom.NewPolygon(layout)
 		}
-		return geom.NewMultiLineString(layout).MustSetCoords([][]geom.Coord{{}, co})
+		return geom.NewMultiLineString(layout).MustSetCoords([][]geom.Coord{co[:h], {}, co[h:]})
 	}
 }
+
+// leafSalt spreads the Go types over the positions of a history.
+func leafSalt(i, n int, g bNode) int {
+	return 7*i + 3*n + 5*len(g.Cs) + len(g.L)
+}
+
+// noRing: GeoJSON has no LinearRing; collections built for the GeoJSON encoder use a Polygon in its place.
+var noRing bool
 
 func buildNode(n bNode, salt int) geom.T {
 	if n.Gc != nil {
@@ -97,35 +192,136 @@ func buildNode(n bNode, salt int) geom.T {
 	return leafGeom(n.L, n.Cs, salt)
 }
 
+func buildNodeJSON(n bNode, salt int) geom.T {
+	noRing = n.Gc != nil
+	defer func() { noRing = false }()
+	return buildNode(n, salt)
+}
+
+type bBox struct {
+	L        string
+	Min, Max []int
+}
+
+func tokFloat(v int) float64 {
+	switch v {
+	case infTok:
+		return math.Inf(1)
+	case -infTok:
+		return math.Inf(-1)
+	}
+	return float64(v)
+}
+
+// mkBox builds the box: NewBounds for the canonical empty box, otherwise NewBounds(layout).Set(minima..., maxima...)
+// (an interval recorded as (+INF, -INF) is written as (+Inf, -Inf): the state NewBounds leaves in an unused dimension).
+func mkBox(b bBox) *geom.Bounds {
+	nb := geom.NewBounds(layoutOf(b.L))
+	all := true
+	args := []float64{}
+	for i, v := range b.Min {
+		all = all && v == infTok && b.Max[i] == -infTok
+		args = append(args, tokFloat(v))
+	}
+	for _, v := range b.Max {
+		args = append(args, tokFloat(v))
+	}
+	if all {
+		return nb
+	}
+	return nb.Set(args...)
+}
+
+// dimIndex: position of the dimensions of layout l in a by-name vector (x, y, z, m).
+func dimIndex(l geom.Layout) []int {
+	switch l {
+	case geom.XY:
+		return []int{0, 1}
+	case geom.XYZ:
+		return []int{0, 1, 2}
+	case geom.XYM:
+		return []int{0, 1, 3}
+	case geom.XYZM:
+		return []int{0, 1, 2, 3}
+	}
+	return []int{}
+}
+
+// eachPoint enumerates vals^n.
+func eachPoint(n int, vals []int, f func(p []int)) {
+	var rec func(p []int)
+	rec = func(p []int) {
+		if len(p) == n {
+			f(append([]int{}, p...))
+			return
+		}
+		for _, v := range vals {
+			rec(append(p, v))
+		}
+	}
+	rec(nil)
+}
+
 func boundsHandler(raw json.RawMessage) map[string]any {
 	var c struct {
-		Fam    string
-		L0     string
-		M1, M2 bGeom
-		First  int
-		Gs     []bGeom
-		T      bNode
-		N      int
-		L      string
-		B1, B2 struct{ Min, Max []int }
+		Fam        string
+		L0         string
+		M1, M2     bGeom
+		First      int
+		Gs         []bNode
+		Pre, Post  []bNode
+		Op         string
+		Smin, Smax []int
+		T          bNode
+		Ty         int
+		L          string
+		B, B1, B2  bBox
+		Pv         []int
 	}
 	must(json.Unmarshal(raw, &c))
 	out := map[string]any{}
 	switch c.Fam {
 	case "extend":
+		// gs holds leaves and (for direct Bounds.Extend(collection) calls) collection trees
 		var b *geom.Bounds
 		out["init"] = boundsProj(func() *geom.Bounds { b = geom.NewBounds(layoutOf(c.L0)); return b })
-		steps, own := []any{}, []any{}
+		steps, own, tys := []any{}, []any{}, []string{}
 		for i, g := range c.Gs {
-			gg := leafGeom(g.L, g.Cs, i+len(c.Gs))
+			gg := buildNode(g, leafSalt(i, len(c.Gs), g))
 			steps = append(steps, boundsProj(func() *geom.Bounds { b.Extend(gg); return b }))
 			own = append(own, boundsProj(func() *geom.Bounds { return gg.Bounds() }))
+			tys = append(tys, goType(gg))
 		}
-		out["steps"], out["own"] = steps, own
+		out["steps"], out["own"], out["tys"] = steps, own, tys
+		out["poly"] = polyProj(func() *geom.Bounds { return b })
+	case "set":
+		// NewBounds(l0), Extend(pre...), Set / SetCoords with the box (smin, smax) projected on the CURRENT layout, Extend(post...)
+		b := geom.NewBounds(layoutOf(c.L0))
+		steps := []any{}
+		for i, g := range c.Pre {
+			gg := buildNode(g, leafSalt(i, len(c.Pre)+1, g))
+			steps = append(steps, boundsProj(func() *geom.Bounds { b.Extend(gg); return b }))
+		}
+		ix := dimIndex(b.Layout())
+		mn, mx := make([]float64, len(ix)), make([]float64, len(ix))
+		for k, d := range ix {
+			mn[k], mx[k] = float64(c.Smin[d]), float64(c.Smax[d])
+		}
+		if c.Op == "Set" {
+			steps = append(steps, boundsProj(func() *geom.Bounds { return b.Set(append(append([]float64{}, mn...), mx...)...) }))
+		} else {
+			steps = append(steps, boundsProj(func() *geom.Bounds { return b.SetCoords(geom.Coord(mn), geom.Coord(mx)) }))
+		}
+		for i, g := range c.Post {
+			gg := buildNode(g, leafSalt(i+2, len(c.Post), g))
+			steps = append(steps, boundsProj(func() *geom.Bounds { b.Extend(gg); return b }))
+		}
+		out["steps"] = steps
+		out["poly"] = polyProj(func() *geom.Bounds { return b })
 	case "clone":
 		b := geom.NewBounds(layoutOf(c.L0))
 		for i, g := range c.Gs {
-			b.Extend(leafGeom(g.L, g.Cs, i))
+			b.Extend(buildNode(g, i))
 		}
 		cl := b.Clone()
 		proj := func(x *geom.Bounds) map[string]any { return boundsProj(func() *geom.Bounds { return x }) }
@@ -171,59 +367,46 @@ func boundsHandler(raw json.RawMessage) map[string]any {
 	case "gc":
 		g := buildNode(c.T, 0)
 		out["b"] = boundsProj(func() *geom.Bounds { return g.Bounds() })
+		out["poly"] = polyProj(func() *geom.Bounds { return g.Bounds() })
+		out["bbox"] = bboxProj(buildNodeJSON(c.T, 0))
+	case "geo":
+		// one geometry of an explicit Go type (ty): its own Bounds(), the polygon of those bounds, the GeoJSON bbox
+		g := buildNode(c.T, c.Ty)
+		out["ty"] = goType(g)
+		out["b"] = boundsProj(func() *geom.Bounds { return g.Bounds() })
+		out["poly"] = polyProj(func() *geom.Bounds { return g.Bounds() })
+		gj := buildNodeJSON(c.T, c.Ty)
+		out["bbox"] = bboxProj(gj)
+		out["bbd"] = bboxProj(gj, geojson.EncodeGeometryWithMaxDecimalDigits(1))
 	case "overlap":
-		mk := func(b struct{ Min, Max []int }) *geom.Bounds {
-			var l geom.Layout
-			switch {
-			case c.N == 2:
-				l = geom.XY
-			case c.L == "XYM":
-				l = geom.XYM
-			default:
-				l = geom.XYZ
-			}
-			nb := geom.NewBounds(l)
-			if b.Min[0] == infTok {
-				return nb
-			}
-			args := []float64{}
-			for _, v := range b.Min {
-				args = append(args, float64(v))
-			}
-			for _, v := range b.Max {
-				args = append(args, float64(v))
-			}
-			return nb.Set(args...)
-		}
 		out["pan"] = ""
 		out["ov"], out["vo"], out["e1"] = false, false, false
-		pts := []any{}
-		ev, msg := call(func() {
-			b1, b2 := mk(c.B1), mk(c.B2)
-			l := layoutOf(c.L)
-			out["ov"] = b1.Overlaps(l, b2)
-			out["vo"] = b2.Overlaps(l, b1)
-			out["e1"] = b1.IsEmpty()
-			n := l.Stride()
-			var rec func(p []int)
-			rec = func(p []int) {
-				if len(p) == n {
-					co := make(geom.Coord, n)
-					for i, v := range p {
-						co[i] = float64(v)
-					}
-					pts = append(pts, map[string]any{"p": append([]int{}, p...), "got": b1.OverlapsPoint(l, co)})
-					return
-				}
-				for v := -1; v <= 3; v++ {
-					rec(append(p, v))
-				}
-			}
-			rec(nil)
-		})
-		if ev != "ok" {
-			out["pan"] = msg
+		b1, b2 := mkBox(c.B1), mkBox(c.B2)
+		l := layoutOf(c.L)
+		out["e1"] = b1.IsEmpty()
+		_, m1 := call(func() { out["ov"] = b1.Overlaps(l, b2) })
+		_, m2 := call(func() { out["vo"] = b2.Overlaps(l, b1) })
+		if m1 != "" {
+			out["pan"] = "Overlaps: " + m1
+		} else if m2 != "" {
+			out["pan"] = "Overlaps (swapped): " + m2
 		}
+	case "ovpt":
+		out["pan"] = ""
+		b := mkBox(c.B)
+		l := layoutOf(c.L)
+		pts := []any{}
+		eachPoint(l.Stride(), c.Pv, func(p []int) {
+			co := make(geom.Coord, len(p))
+			for i, v := range p {
+				co[i] = float64(v)
+			}
+			got := false
+			if _, m := call(func() { got = b.OverlapsPoint(l, co) }); m != "" && out["pan"] == "" {
+				out["pan"] = m
+			}
+			pts = append(pts, map[string]any{"p": p, "got": got})
+		})
 		out["pts"] = pts
 	}
 	return out
